@@ -321,6 +321,19 @@ func genC17(o *Out, rng *rand.Rand, tier string) {
 		p, _ := dhcpv4.New(dhcpv4.WithOption(opt))
 		key := append([]byte("sg"+acc), p.Options[opt.Code.Code()]...)
 		o.Emit(map[string]any{"op": "SetGet", "acc": acc, "val": val, "raw": B(p.Options[opt.Code.Code()]), "res": callAcc(a, p)}, "set-get", key, true)
+		// the value set on this packet is its own: another packet that was given the same stored value (a copy of
+		// the option map, an echoed option) and then sets the option again does not change what this one reads
+		if raw := p.Options[opt.Code.Code()]; len(raw) > 0 {
+			q2, _ := dhcpv4.New()
+			q2.Options[opt.Code.Code()] = raw
+			other := make([]byte, len(raw))
+			for i := range other {
+				other[i] = ^raw[i]
+			}
+			q2.UpdateOption(dhcpv4.OptGeneric(opt.Code, other))
+			q2.UpdateOption(dhcpv4.OptGeneric(opt.Code, other[:len(other)/2+1]))
+			o.Emit(map[string]any{"op": "SetGet", "acc": acc, "val": val, "raw": B(p.Options[opt.Code.Code()]), "res": callAcc(a, p)}, "set-get-shared", append(key, 2), true)
+		}
 		// and after a trip over the wire
 		if q, err := dhcpv4.FromBytes(p.ToBytes()); err == nil && len(p.Options[opt.Code.Code()]) > 0 {
 			o.Emit(map[string]any{"op": "SetGet", "acc": acc, "val": val, "raw": B(p.Options[opt.Code.Code()]), "res": callAcc(a, q)}, "set-get-wire", append(key, 1), true)
